@@ -50,8 +50,13 @@ type c11Set struct {
 type c11Case struct {
 	kind     byte // 'q' DoUntilQuorum, 'w' ...WithoutSuccessfulContextCancellation, 'm' DoMulti..., 'd' ReplicationSet.Do
 	min      bool
-	hedge    bool // HedgingDelay (q,w,m) / delay (d) = c11Delay
-	term     bool // IsTerminalError set
+	hedge    bool // HedgingDelay (q,w,m) / delay (d) set
+	delayMs  int  // the delay in ms; 0 = the default c11Delay (2 ms)
+	// IsTerminalError: 0 nil; 1 true exactly for the terminal errors (T); 2 constant true (also for a
+	// nil error: every error is terminal, a success never is); 3 "not retryable" (true for nil and
+	// for T, false for the retryable errors E)
+	term   int
+	pauses [][2]int // {k, ms}: before the k-th arrival wait until ms have passed since the first window closed
 	sorter   []int
 	sets     []c11Set
 	out      []byte // per global instance id: S success, s success + callback already called its cancel func (multi), E error, T terminal error
@@ -95,7 +100,11 @@ func (c *c11Case) fields() (cmd, opts, sets, script string) {
 	default:
 		cmd = "C11.q"
 	}
-	opts = fmt.Sprintf("%c m%s h%s t%s z%s", c.kind, b2i(c.min), b2i(c.hedge), b2i(c.term), c11Ints(c.sorter))
+	h := b2i(c.hedge)
+	if c.hedge && c.delayMs > 0 {
+		h = itoa(c.delayMs)
+	}
+	opts = fmt.Sprintf("%c m%s h%s t%d z%s", c.kind, b2i(c.min), h, c.term, c11Ints(c.sorter))
 	ss := make([]string, len(c.sets))
 	for i, s := range c.sets {
 		ss[i] = fmt.Sprintf("%s:e%d:u%d:a%s", c11Ints(s.zones), s.maxErr, s.maxUnz, b2i(s.za))
@@ -117,6 +126,13 @@ func (c *c11Case) fields() (cmd, opts, sets, script string) {
 		ca = itoa(c.cancelAt)
 	}
 	script = fmt.Sprintf("o=%s;p=%s;c=%s;w=%s", string(c.out), c11Ints(c.prio), ca, c11Ints(c.waits))
+	if len(c.pauses) > 0 {
+		ps := make([]string, len(c.pauses))
+		for i, p := range c.pauses {
+			ps[i] = fmt.Sprintf("%d:%d", p[0], p[1])
+		}
+		script += ";s=" + strings.Join(ps, ",")
+	}
 	return
 }
 
@@ -216,6 +232,11 @@ type c11Err struct {
 
 func (e *c11Err) Error() string { return "instance error " + itoa(e.g) }
 
+// the non-terminal errors are "retryable"
+func (e *c11Err) Is(target error) bool { return target == errC11Retryable && !e.term }
+
+var errC11Retryable = errors.New("retryable")
+
 var errC11Done = errors.New("callback done")
 
 type c11Exec struct {
@@ -232,7 +253,53 @@ type c11Exec struct {
 	trace    []string
 	returned bool
 	retOK    []int
-	t0       time.Time
+	t0       time.Time // just before the call is launched
+	t1       time.Time // when the first window closed: the call's main loop (and its ticker) exists by then
+	delay    time.Duration
+	hb       *c11Heartbeat // long delays only: watches for CPU starvation of this process
+}
+
+// c11Heartbeat wakes up every 1/16 of the hedging delay and records by how much the wake-ups are
+// late. A time.Ticker drops ticks when its receiver cannot run; "k delays have passed, so k ticks
+// took effect" is therefore only claimed (token L) while this process was never held up for more
+// than a quarter of the delay.
+type c11Heartbeat struct {
+	stop   chan struct{}
+	done   chan struct{}
+	mu     sync.Mutex
+	maxLag time.Duration
+}
+
+func c11StartHeartbeat(step time.Duration) *c11Heartbeat {
+	h := &c11Heartbeat{stop: make(chan struct{}), done: make(chan struct{})}
+	go func() {
+		defer close(h.done)
+		last := time.Now()
+		for {
+			select {
+			case <-h.stop:
+				return
+			default:
+			}
+			time.Sleep(step)
+			now := time.Now()
+			if lag := now.Sub(last) - step; lag > 0 {
+				h.mu.Lock()
+				if lag > h.maxLag {
+					h.maxLag = lag
+				}
+				h.mu.Unlock()
+			}
+			last = now
+		}
+	}()
+	return h
+}
+
+func (h *c11Heartbeat) lag() time.Duration {
+	h.mu.Lock()
+	defer h.mu.Unlock()
+	return h.maxLag
 }
 
 func (x *c11Exec) log(s string) {
@@ -309,6 +376,9 @@ func (x *c11Exec) window(action string, do func()) {
 
 func (x *c11Exec) closeWindow(action string) {
 	ok := c11Quiesce()
+	if x.t1.IsZero() {
+		x.t1 = time.Now()
+	}
 	x.mu.Lock()
 	x.trace = append(x.trace, "A"+action)
 	if !ok {
@@ -339,7 +409,16 @@ func (x *c11Exec) closeWindow(action string) {
 	}
 	x.trace = append(x.trace, "X"+string(vec))
 	if x.cs.hedge {
-		x.trace = append(x.trace, "T"+itoa(int(time.Since(x.t0)/c11Delay)))
+		// T: no more than T ticks can have fired (the ticker is created after t0);
+		// L (long delays only): at least L ticks are due (the ticker was created before t1)
+		x.trace = append(x.trace, "T"+itoa(int(time.Since(x.t0)/x.delay)))
+		if x.cs.delayMs >= 20 {
+			l := int(time.Since(x.t1) / x.delay)
+			if x.hb == nil || x.hb.lag() >= x.delay/4 {
+				l = 0 // the process was starved: ticks may have been dropped
+			}
+			x.trace = append(x.trace, "L"+itoa(l))
+		}
 	}
 	x.mu.Unlock()
 }
@@ -358,9 +437,9 @@ func (x *c11Exec) startedCount() int {
 // a delay timer released it), the call returned, or 5 delays have passed.
 func (x *c11Exec) waitTick() {
 	before := x.startedCount() + len(x.ev)
-	deadline := time.Now().Add(5 * c11Delay)
+	deadline := time.Now().Add(5 * x.delay)
 	for time.Now().Before(deadline) {
-		time.Sleep(c11Delay / 8)
+		time.Sleep(x.delay / 8)
 		x.mu.Lock()
 		now := len(x.ev)
 		for _, k := range x.nstart {
@@ -378,6 +457,10 @@ func c11Run(cs *c11Case) string {
 	n := cs.n()
 	x := &c11Exec{cs: cs, ctxs: make([]context.Context, n), cancels: make([]context.CancelCauseFunc, n), gates: make([]chan struct{}, n),
 		nstart: make([]int, n), seen: make([]bool, n), released: make([]bool, n), doneCall: make([]bool, n)}
+	x.delay = c11Delay
+	if cs.delayMs > 0 {
+		x.delay = time.Duration(cs.delayMs) * time.Millisecond
+	}
 	for g := range x.gates {
 		x.gates[g] = make(chan struct{})
 	}
@@ -402,13 +485,18 @@ func c11Run(cs *c11Case) string {
 	}
 	cfg := ring.DoUntilQuorumConfig{MinimizeRequests: cs.min}
 	if cs.hedge {
-		cfg.HedgingDelay = c11Delay
+		cfg.HedgingDelay = x.delay
 	}
-	if cs.term {
+	switch cs.term {
+	case 1:
 		cfg.IsTerminalError = func(err error) bool {
 			var ie *c11Err
 			return errors.As(err, &ie) && ie.term
 		}
+	case 2:
+		cfg.IsTerminalError = func(error) bool { return true }
+	case 3:
+		cfg.IsTerminalError = func(err error) bool { return !errors.Is(err, errC11Retryable) }
 	}
 	if cs.sorter != nil {
 		order := cs.sorter
@@ -420,6 +508,17 @@ func c11Run(cs *c11Case) string {
 			sort.SliceStable(zones, func(a, b int) bool { return pos[zones[a]] < pos[zones[b]] })
 			return zones
 		}
+	}
+	if cs.delayMs >= 20 {
+		// one P: every timer of the process is on its heap and is run whenever the driver yields, so a
+		// due tick cannot sit unnoticed on an idle P when a window is closed
+		old := runtime.GOMAXPROCS(1)
+		x.hb = c11StartHeartbeat(x.delay / 16)
+		defer func() {
+			close(x.hb.stop)
+			<-x.hb.done
+			runtime.GOMAXPROCS(old)
+		}()
 	}
 	parent, cancelParent := context.WithCancel(context.Background())
 	defer cancelParent()
@@ -445,7 +544,7 @@ func c11Run(cs *c11Case) string {
 			case 'd':
 				delay := time.Duration(0)
 				if cs.hedge {
-					delay = c11Delay
+					delay = x.delay
 				}
 				var r []interface{}
 				r, err = rsets[0].Do(parent, delay, func(ctx context.Context, d *ring.InstanceDesc) (interface{}, error) {
@@ -486,6 +585,14 @@ func c11Run(cs *c11Case) string {
 		if cs.cancelAt == arrivals && !cancelled {
 			cancelled = true
 			x.window("c", cancelParent)
+		}
+		for _, p := range cs.pauses {
+			if p[0] == arrivals {
+				if d := time.Until(x.t1.Add(time.Duration(p[1]) * time.Millisecond)); d > 0 {
+					time.Sleep(d)
+				}
+				x.closeWindow("w")
+			}
 		}
 		if cs.hedge {
 			for w := isWait(arrivals); w > 0; w-- {
@@ -700,9 +807,9 @@ func c11Random(r *rng) *c11Case {
 	} else {
 		c.hedge = r.chance(1, 25)
 	}
-	c.term = r.chance(1, 2)
+	c.term = pick(r, []int{0, 0, 0, 0, 1, 1, 1, 2, 2, 3})
 	if c.kind == 'd' {
-		c.min, c.term = false, false
+		c.min, c.term = false, 0
 		c.hedge = r.chance(1, 3)
 	}
 	if c.kind == 'm' {
@@ -738,6 +845,38 @@ func c11Random(r *rng) *c11Case {
 		}
 	}
 	c11RandScript(r, c)
+	return c
+}
+
+// c11Timing: MinimizeRequests with a hedging delay d of 60 ms; three results are handed over at about
+// 0.7d, 1.4d and 2.1d without completing the quorum, then everything is held until 2.9d and observed
+// (by then the hedged requests due at d and 2d must have been released), then the rest completes.
+func c11Timing(r *rng) *c11Case {
+	const d = 60
+	c := &c11Case{kind: pick(r, []byte{'q', 'w'}), min: true, hedge: true, delayMs: d, cancelAt: -1}
+	c.term = pick(r, []int{0, 1, 3})
+	c.pauses = [][2]int{{0, d * 7 / 10}, {1, d * 14 / 10}, {2, d * 21 / 10}, {3, d * 29 / 10}}
+	switch r.intn(4) {
+	case 0: // flat, 4 of 6 needed, 2 held back
+		c.sets = []c11Set{{zones: []int{0, 1, 2, 0, 1, 2}, maxErr: 2}}
+		c.out = []byte("SSSSSS")
+		c.prio = c11Perm(r, 6)
+	case 1: // flat, 4 of 5 needed, 1 held back
+		c.sets = []c11Set{{zones: []int{0, 0, 0, 0, 0}, maxErr: 1}}
+		c.out = []byte("SSSSS")
+		c.prio = c11Perm(r, 5)
+	case 2: // zone-aware, zones in the order 0,1,2: zones 0 and 1 (4 instances) first, zone 2 held back
+		c.sets = []c11Set{{zones: []int{0, 0, 1, 1, 2}, maxUnz: 1, za: true}}
+		c.sorter = []int{0, 1, 2}
+		c.out = []byte("SSSSS")
+		c.prio = []int{0, 2, 1, 3, 4}
+	default: // zone-aware with a tolerated failure among the three early results
+		c.sets = []c11Set{{zones: []int{0, 0, 1, 1, 2, 3}, maxUnz: 2, za: r.chance(1, 2)}}
+		c.sorter = []int{0, 1, 2, 3}
+		c.out = []byte("SESSSS")
+		c.prio = []int{0, 2, 1, 3, 4, 5}
+	}
+	c11RandAddr(r, &c.sets[0])
 	return c
 }
 
@@ -784,7 +923,7 @@ func c11Perms(n int) [][]int {
 // tolerance (flat 0..n, zone-aware 0..zones), both variants, minimisation on/off, terminal
 // predicate on/off, every outcome assignment, every completion order, every cancellation point.
 // keep(i) subsamples.
-func c11Exhaustive(n int, keep func() bool, addr func(n int) []int, emit func(*c11Case)) {
+func c11Exhaustive(n int, keep func() bool, addr func(n int) []int, tkind func() int, emit func(*c11Case)) {
 	perms := c11Perms(n)
 	for _, lay := range c11Layouts(n) {
 		z := len(c11Distinct(lay))
@@ -827,7 +966,14 @@ func c11Exhaustive(n int, keep func() bool, addr func(n int) []int, emit func(*c
 									if addr != nil {
 										set.addr = addr(n)
 									}
-									emit(&c11Case{kind: kind, min: mn, term: tm, sets: []c11Set{set}, out: out, prio: p, cancelAt: ca})
+									term := 0
+									if tm {
+										term = 1
+										if tkind != nil {
+											term = tkind()
+										}
+									}
+									emit(&c11Case{kind: kind, min: mn, term: term, sets: []c11Set{set}, out: out, prio: p, cancelAt: ca})
 								}
 							}
 						}
@@ -867,14 +1013,26 @@ func c11Generate(e *env) []*c11Case {
 		}
 		return a
 	}
-	c11Exhaustive(1, all, nil, add)
+	// kind of the terminal-error predicate of an enumerated case that has one (see c11Case.term)
+	tkind := func() int { return pick(rs, []int{1, 1, 2, 3}) }
+	c11Exhaustive(1, all, nil, tkind, add)
 	if e.quick {
-		c11Exhaustive(2, sample(1, 4), addr, add)
-		c11Exhaustive(3, sample(1, 150), addr, add)
+		c11Exhaustive(2, sample(1, 4), addr, tkind, add)
+		c11Exhaustive(3, sample(1, 150), addr, tkind, add)
 	} else {
-		c11Exhaustive(2, all, addr, add)
-		c11Exhaustive(3, sample(1, 3), addr, add)
-		c11Exhaustive(4, sample(1, 400), addr, add)
+		c11Exhaustive(2, all, addr, tkind, add)
+		c11Exhaustive(3, sample(1, 3), addr, tkind, add)
+		c11Exhaustive(4, sample(1, 400), addr, tkind, add)
+	}
+	// hedging-timing cases (long delay): results keep arriving faster than the delay while the quorum
+	// stays open; the hedged requests must nevertheless be released at d, 2d, ... from the start
+	rt := newRng(e.seed, 1102)
+	ntim := 160
+	if !e.quick {
+		ntim = 640
+	}
+	for i := 0; i < ntim; i++ {
+		add(c11Timing(rt))
 	}
 	r := newRng(e.seed, 1101)
 	nrand := 9000 * e.scale
